@@ -43,6 +43,9 @@ enum Ev {
     ReceiptTimer,
     Bmca,
     OtherRequesterResp(usize),
+    /// follow-up of the SAME responder and sequence id, but addressed to another requester (two
+    /// nodes, or two ports of one node, measuring the same link with coinciding sequence ids)
+    OtherRequesterFu(usize),
     /// Announce from a lower-numbered port of our own clock on the same segment
     SiblingAnnounce,
 }
@@ -137,6 +140,9 @@ impl Check for C14 {
             if ch.chance(S_WORK, 1, 4) {
                 evs.push(Ev::OtherRequesterResp(0));
             }
+            if ch.chance(S_WORK, 1, 4) {
+                evs.push(Ev::OtherRequesterFu(0));
+            }
             if ch.chance(S_WORK, 1, 6) {
                 evs.push(Ev::SiblingAnnounce);
             }
@@ -218,6 +224,15 @@ impl Check for C14 {
                         // our own clock, port number 0 < ours: the "two ports on one segment" rule
                         let f = announce_frame(Pid::new(OWN, 0), 7 + script.len() as u16, &GmData::simple(OWN, 200), 0, 0, 0);
                         script.push("Announce from a lower-numbered port of our own clock".into());
+                        w.host_call(0, 0, HostCall::RxGeneral(Rc::new(f.encode())), ch);
+                    }
+                    Ev::OtherRequesterFu(k) => {
+                        let Some(seq) = req_seq else { continue };
+                        let rd = &resp[*k];
+                        // another port of our own clock as requester in half of the cases
+                        let other = if script.len() % 2 == 0 { Pid::new(OWN, 9) } else { Pid::new([0x66; 8], 1) };
+                        let f = Frame::new(MsgType::PdelayRespFollowUp, ids[rd.who], seq, Body::PdelayRespFollowUp { response_origin: Ts::from_ns(rd.t3.total_ns() + 12_345), requesting: other });
+                        script.push(format!("Pdelay_Resp_Follow_Up#{seq} of the same responder addressed to another requester"));
                         w.host_call(0, 0, HostCall::RxGeneral(Rc::new(f.encode())), ch);
                     }
                     Ev::OtherRequesterResp(k) => {
